@@ -4,7 +4,7 @@
    NUL, space, is_unreserved, LF, CR (escape), on NUL, '%', '+' and is_hexdig (unescape), and on
    is_digit / is_hex_lower / is_hex_upper (hexdig_to_int). *)
 From Coq Require Import List NArith Bool Lia String ZifyBool ZifyN.
-From UP Require Import Base.Chars Base.Regex Base.Atoms Generated.SwitchTables Proofs.SwitchRefine Model.Escape.
+From UP Require Import Base.Chars Base.Regex Base.Atoms Generated.SwitchTables Proofs.SwitchBase Model.Escape.
 Import ListNotations.
 Local Open Scope N_scope.
 
